@@ -44,6 +44,14 @@ def modelTok (x : Drbg.Ctx) (t : String) : Drbg.Ctx × String :=
     | some n => match Drbg.randBytes mcfg x n with
       | none => (x, "err")
       | some (out, x') => (x', fmtBytes out)
+  else if t.startsWith "S:" then
+    match (t.drop 2).toString.splitOn ":" with
+    | [v, c, ctr] =>
+      match parseBytes v, parseBytes c, ctr.toNat? with
+      | some v, some c, some ctr =>
+        if v.length = 55 ∧ c.length = 55 then ({ rand := [0] ++ v ++ c, counter := ctr, seeded := true }, "ok") else (x, "bad")
+      | _, _, _ => (x, "bad")
+    | _ => (x, "bad")
   else if t.startsWith "r:" then
     match ((t.drop 2).toString.splitOn ":").map String.toNat? with
     | [some count, some n] =>
@@ -70,6 +78,14 @@ def specTok (s : Option Relic.Spec.HashDrbg.State) (t : String) : Option Relic.S
     match (t.drop 2).toString.toNat? with
     | none => (s, "bad")
     | some n => let (s', o) := step sparams s (.gen n); (s', fmt o)
+  else if t.startsWith "S:" then
+    match (t.drop 2).toString.splitOn ":" with
+    | [v, c, ctr] =>
+      match parseBytes v, parseBytes c, ctr.toNat? with
+      | some v, some c, some ctr =>
+        if v.length = 55 ∧ c.length = 55 then (some { v := os2i v, c := os2i c, ctr := ctr }, "ok") else (s, "bad")
+      | _, _, _ => (s, "bad")
+    | _ => (s, "bad")
   else if t.startsWith "r:" then
     match ((t.drop 2).toString.splitOn ":").map String.toNat? with
     | [some count, some n] =>
